@@ -62,6 +62,33 @@ class NonSeekable:
         self.closed_called = True
 
 
+class ShortSeekable:
+    """a SEEKABLE binary stream whose read(n) returns between 1 and n bytes, as raw, network-backed or decompressing streams do (the caps are a
+    deterministic function of the content, so that a replay sees the same schedule)"""
+    def __init__(self, data, salt=0):
+        import random
+        import zlib
+        self._b, self._rng = io.BytesIO(data), random.Random(zlib.crc32(data) * 8 + salt)
+        self.closed_called = False
+
+    def read(self, n=-1):
+        if n is None or n < 0:
+            return self._b.read()
+        return self._b.read(self._rng.randint(1, n)) if n else b""
+
+    def seek(self, *a):
+        return self._b.seek(*a)
+
+    def tell(self):
+        return self._b.tell()
+
+    def seekable(self):
+        return True
+
+    def close(self):
+        self.closed_called = True
+
+
 class TextNonSeekable:
     def __init__(self, text):
         self._s = io.StringIO(text)
@@ -74,7 +101,7 @@ class TextNonSeekable:
         self.closed_called = True
 
 
-BYTE_FORMS = ["bytes", "bytesio", "bytesio-offset", "nonseekable", "short-reads", "file", "path"]
+BYTE_FORMS = ["bytes", "bytesio", "bytesio-offset", "nonseekable", "short-reads", "seekable-short-reads", "seekable-short-reads#2", "seekable-short-reads#3", "seekable-short-reads#4", "file", "path"]
 TEXT_FORMS = ["str", "stringio", "text-nonseekable", "stringio-offset"]
 
 
@@ -102,6 +129,8 @@ def run_form(data, form, headers, optimistic, rng, tmpdir):
         src = stream = NonSeekable(data)
     elif form == "short-reads":
         src = stream = NonSeekable(data, rng, short=True)
+    elif form.startswith("seekable-short-reads"):
+        src = stream = ShortSeekable(data, int(form.partition("#")[2] or 0))
     elif form in ("file", "path"):
         p = os.path.join(tmpdir, "f%d.xml" % rng.randrange(10**9))
         with open(p, "wb") as f:
@@ -180,7 +209,7 @@ def judge(case, rng, tmpdir):
             r, closed, leaked = run_form(payload, form, headers, opt, rng, tmpdir)
             w = {"kind": case["kind"], "data": data, "headers": headers, "label": label, "form": form, "optimistic": opt}
             if isinstance(r, Exception):
-                fs.append(Finding(("raises", form, type(r).__name__), w, "delivered as %s (optimistic=%s): parse raises %s: %s" % (form, opt, type(r).__name__, r)))
+                fs.append(Finding(("raises", form.partition("#")[0], type(r).__name__), w, "delivered as %s (optimistic=%s): parse raises %s: %s" % (form, opt, type(r).__name__, r)))
                 continue
             if closed:
                 fs.append(Finding(("closed-caller-stream", form), w, "the caller's stream (%s) was closed by parse()" % form))
@@ -196,7 +225,7 @@ def judge(case, rng, tmpdir):
         if d:
             w = {"kind": case["kind"], "data": data, "headers": headers, "label": label, "form": form, "optimistic": opt, "ref_form": ref_key[0]}
             how = "optimistic" if form == ref_key[0] else "form"
-            fs.append(Finding(("differs", how if how == "optimistic" else form, label.split("/")[0], d[0].split("[")[0].split(".")[0]), w,
+            fs.append(Finding(("differs", how if how == "optimistic" else form.partition("#")[0], label.split("/")[0], d[0].split("[")[0].split(".")[0]), w,
                               "%s: delivered as %s (optimistic=%s) differs from %s (optimistic=True) at %s: %r vs %r" % (label, form, opt, ref_key[0], d[0], d[2], d[1]), observed=d[2], expected=d[1]))
     seen, out = set(), []
     for f in fs:
@@ -211,7 +240,20 @@ def gen_case(rng):
     if r < 0.15:
         doc = feedgen.vocab_doc(rng)
         return {"kind": "bytes", "data": doc.encode("utf-8"), "headers": rng.choice([None, {"content-type": "application/xml; charset=utf-8"}, {"content-type": "text/xml"}]), "label": "small/utf-8"}
-    if r < 0.55:
+    if r < 0.33:
+        # dense in 2-byte characters that windows-1252 can also read: a read that ends anywhere is likely to end inside a character
+        n = rng.choice([300, 1500, 4000, 2**13 + rng.randint(-4, 4), 30000, 2**16 + rng.randint(-300, 300), 90000])
+        wide = rng.choice(["é", "ß", "éß", "ñ"])
+        items, size, i = [], 0, 0
+        while size < n:
+            t = "<item><title>%s %d</title><description>%s</description></item>\n" % (wide * rng.randint(3, 30), i, (wide * rng.randint(5, 60) + rng.choice(["", " ", "a"])) * rng.randint(1, 4))
+            items.append(t)
+            size += len(t.encode("utf-8"))
+            i += 1
+        declared = rng.choice(["utf-8", None])
+        doc = ('<?xml version="1.0" encoding="utf-8"?>\n' if declared else "") + '<rss version="2.0"><channel><title>%s</title>\n%s</channel></rss>' % (wide * 5, "".join(items))
+        return {"kind": "bytes", "data": doc.encode("utf-8"), "headers": rng.choice([None, {"content-type": "application/xml; charset=utf-8"}, {"content-type": "application/xml"}]), "label": "dense/utf-8/decl=%s" % declared}
+    if r < 0.6:
         # straddle the 64 KiB detection prefix with every alignment of a multi-byte character
         wide = rng.choice(["é", "日", "😀", "ß"])
         at = 2**16 + rng.randint(-6, 6)
@@ -271,10 +313,10 @@ def search(ctx, focus=None):
             os.unlink(os.path.join(tmpdir, f))
         os.rmdir(tmpdir)
     return {"evaluations": n, "distinct_nontrivial": len(distinct), "failures": failures, "distribution": dist,
-            "rule": "documents {small vocabulary-wide feeds; ~64 KiB + feeds with a run of 2/3/4-byte characters placed at every alignment (-6..+6) around byte 65536, declared utf-8 / us-ascii / "
+            "rule": "documents {small vocabulary-wide feeds; feeds of 300 B - 90 KB dense in 2-byte characters (a read ending anywhere is likely to end inside one); ~64 KiB + feeds with a run of 2/3/4-byte characters placed at every alignment (-6..+6) around byte 65536, declared utf-8 / us-ascii / "
                     "undeclared, XML media types with and without charset; UTF-16/32, latin-1, windows-1252, koi8-r at sizes straddling 2**13 and 2**16 +/- 4; an undecodable byte before / "
                     "after the prefix boundary; text documents around the 8192-character text prefix, well-formed and damaged} x delivery {bytes, BytesIO, BytesIO at an offset, non-seekable "
-                    "stream, short-read stream, open file, path | str, StringIO, StringIO at an offset, non-seekable text stream} x optimistic on/off; oracle: pairwise equality of feed, "
+                    "stream, short-read stream, SEEKABLE short-read stream, open file, path | str, StringIO, StringIO at an offset, non-seekable text stream} x optimistic on/off; oracle: pairwise equality of feed, "
                     "entries, encoding, version, namespaces, bozo class; caller streams not closed; no fd left open after parse(path); distinct = distinct (document, headers, delivery form, optimistic flag)",
             "samples": [{"label": "boundary-64k/utf-8"}]}
 
